@@ -102,7 +102,15 @@ def run(ck):
     v = rets[0].value
     w = where(align, rets[0].node)
     d = self_attr("maxDistance")
-    start, end = V("referenceStartPosition"), V("referenceEndPosition")
+    ap = [V(pp.name) for pp in align.call_params()]
+    if len(ap) < 5:
+        raise AnalysisError(f"{align.where}: AlignerEngine.align(reference, query, start, end, isReverse) expected")
+    REF, QRY, start, end, REV = ap[:5]
+
+    def name_of(bound: dict, pred):
+        """parameter name of a helper whose argument at the call site satisfies pred (provenance, not spelling)"""
+        hits = [k for k, v in bound.items() if pred(v)]
+        return hits[0] if len(hits) == 1 else None
 
     # ---- locate the helper calls by role
     apps = [x for x in T.subterms(v) if x[0] == "app"]
@@ -111,14 +119,19 @@ def run(ck):
         ck.violation("C12.3", short(align) + ":deduplicated", w, "the returned pairs are not de-duplicated (a label can be "
                      "paired twice)", found=T.show(v)[:200], required="AlignedPair.deduplicate(candidates)")
         return
-    cand = dict(ded[0][3]).get("pairs")
+    cand = list(dict(ded[0][3]).values())[0] if ded[0][3] else None
     while cand is not None and cand[0] == "call" and cand[1] in ("list", "iter", "tuple") and len(cand[2]) == 1:
         cand = cand[2][0]
     if cand is None or cand[0] != "app":
         raise AnalysisError(f"{w}: candidate pair generator not found")
     cand_fn = p.get_function(cand[1])
     ca = dict(cand[3])
-    R, Q = ca.get("referencePositions"), ca.get("queryPositions")
+    pR = name_of(ca, lambda v: T.contains(v, REF) and not T.contains(v, QRY))
+    pQ = name_of(ca, lambda v: T.contains(v, QRY) and not T.contains(v, REF))
+    pS = name_of(ca, lambda v: v == start)
+    if None in (pR, pQ, pS):
+        raise AnalysisError(f"{w}: arguments of the candidate generator not recognised by provenance: {T.show(cand)[:200]}")
+    R, Q = ca[pR], ca[pQ]
     D = None
     for x in T.subterms(v):
         if x[0] == "call" and x[1] == "list" and x[2] and x[2][0] == ded[0]:
@@ -143,20 +156,27 @@ def run(ck):
     ua = dict(un[0][3])
     ck.judge(pr[0] == D, "C12.3", short(align) + ":returned-pairs", w, "the pairs returned are the de-duplicated ones",
              found=T.show(pr[0])[:120])
-    ck.judge(ua.get("alignedPairs") == D, "C12.3", short(align) + ":complement-against", w,
+    uR = name_of(ua, lambda v: v == R)
+    uQ = name_of(ua, lambda v: v == Q)
+    uS = name_of(ua, lambda v: v == start)
+    others = [k for k in ua if k not in (uR, uQ, uS)]
+    uD = others[0] if len(others) == 1 else None
+    ck.judge(uD is not None and ua.get(uD) == D, "C12.3", short(align) + ":complement-against", w,
              "unpaired labels are the complement of the *de-duplicated* pairs (the ones that are returned)",
-             found=T.show(ua.get("alignedPairs", C(None)))[:160], required="the same de-duplicated list")
-    ck.judge(ua.get("referencePositions") == R and ua.get("queryPositions") == Q, "C12.3", short(align) + ":same-lists", w,
+             found=T.show(ua.get(uD, C(None)))[:160] if uD else str(sorted(ua)), required="the same de-duplicated list")
+    ck.judge(uR is not None and uQ is not None, "C12.3", short(align) + ":same-lists", w,
              "candidates and complement are computed from the same reference-window and query label lists",
-             found=f"ref same: {ua.get('referencePositions') == R}, query same: {ua.get('queryPositions') == Q}")
-    ck.judge(ua.get("referenceStartPosition") == start and ca.get("referenceStartPosition") == start, "C12.3",
-             short(align) + ":seed", w, "candidates and unpaired query labels use the same seed offset")
+             found=f"reference list passed on: {uR is not None}, query list passed on: {uQ is not None}")
+    ck.judge(uS is not None, "C12.3", short(align) + ":seed", w, "candidates and unpaired query labels use the same seed offset",
+             found=str({k: T.show(v)[:40] for k, v in ua.items()}))
+    if None in (uR, uQ, uD, uS):
+        return
     # query labels on the requested strand, reference labels never reversed
     qsrc = Q
     while qsrc is not None and qsrc[0] == "call" and qsrc[1] == "list":
         qsrc = qsrc[2][0]
-    ok_q = qsrc is not None and qsrc[0] == "app" and qsrc[1].endswith("getPositionsWithSiteIds") and qsrc[2] == V("query") \
-        and dict(qsrc[3]).get("reverse") == V("isReverse")
+    ok_q = qsrc is not None and qsrc[0] == "app" and qsrc[1].endswith("getPositionsWithSiteIds") and qsrc[2] == QRY \
+        and list(dict(qsrc[3]).values()) == [REV]
     ck.judge(bool(ok_q), "C12.3", short(align) + ":query-labels", w, "all labels of the query, on the requested strand",
              found=T.show(Q)[:120], required="list(query.getPositionsWithSiteIds(isReverse))")
     # ---- C12.1 reference window
@@ -164,9 +184,12 @@ def run(ck):
         raise AnalysisError(f"{w}: reference window helper not found")
     rw_fn = p.get_function(R[1])
     ra = dict(R[3])
-    ck.judge(ra.get("referenceStartPosition") == start and ra.get("referenceEndPosition") == end and ra.get("reference") == V("reference"),
-             "C12.1", short(align) + ":window-args", w, "the window helper receives reference, start and end unchanged",
-             found=T.show(R)[:160])
+    wREF, wS, wE = name_of(ra, lambda v: v == REF), name_of(ra, lambda v: v == start), name_of(ra, lambda v: v == end)
+    ck.judge(None not in (wREF, wS, wE), "C12.1", short(align) + ":window-args", w,
+             "the window helper receives reference, start and end unchanged", found=T.show(R)[:160])
+    if None in (wREF, wS, wE):
+        return
+    h_start, h_end, h_ref = V(wS), V(wE), V(wREF)
     for pa in explore(ck, rw_fn):
         if pa.outcome != "return":
             continue
@@ -174,7 +197,7 @@ def run(ck):
         ww = where(rw_fn, pa.node)
         if win is None:
             raise AnalysisError(f"{ww}: reference window idiom not recognised: {T.show(pa.value)[:200]}")
-        want_lo, want_hi = T.p_sub(start, d), T.p_add(end, d)
+        want_lo, want_hi = T.p_sub(h_start, d), T.p_add(h_end, d)
         ck.judge(win["lo"] == want_lo and win["lo_incl"], "C12.1", short(rw_fn) + ":lower", ww,
                  "reference window includes labels at exactly start - maxDistance",
                  found=f"x {'>=' if win['lo_incl'] else '>'} {T.show(win['lo'])}", required=f"x >= {T.show(want_lo)}")
@@ -182,7 +205,7 @@ def run(ck):
                  "reference window includes labels at exactly end + maxDistance",
                  found=f"x {'<=' if win['hi_incl'] else '<'} {T.show(win['hi'])}", required=f"x <= {T.show(want_hi)}")
         src = win["src"]
-        ok = src[0] == "app" and src[1].endswith("getPositionsWithSiteIds") and src[2] == V("reference") and not dict(src[3])
+        ok = src[0] == "app" and src[1].endswith("getPositionsWithSiteIds") and src[2] == h_ref and not dict(src[3])
         ck.judge(bool(ok), "C12.1", short(rw_fn) + ":source", ww, "the window is cut from the reference's forward labels",
                  found=T.show(src)[:120])
     # ---- C12.1 candidate window + C12.2 offset
@@ -200,12 +223,12 @@ def run(ck):
             r, q, shift = a.get("reference"), a.get("query"), a.get("queryShift")
             if r is None or q is None or shift is None:
                 raise AnalysisError(f"{we}: AlignedPair arguments not bound")
-            adj = T.p_sub(T.mk_attr(r, "position"), start)
+            adj = T.p_sub(T.mk_attr(r, "position"), V(pS))
             want_shift = T.p_sub(T.mk_attr(q, "position"), adj)
             ck.judge(shift == want_shift, "C12.2", short(cand_fn) + ":offset", we,
                      "offset = query position - (reference position - seed)", found=T.show(shift)[-200:],
-                     required="q.position - (r.position - referenceStartPosition)")
-            ck.judge(r[0] == "elem" and r[1] == V("referencePositions"), "C12.1", short(cand_fn) + ":every-reference-label", we,
+                     required="q.position - (r.position - seed)")
+            ck.judge(r[0] == "elem" and r[1] == V(pR), "C12.1", short(cand_fn) + ":every-reference-label", we,
                      "every reference label of the window is offered candidates", found=T.show(r)[:80])
             if q[0] != "elem":
                 raise AnalysisError(f"{we}: query candidate is not drawn from a window")
@@ -219,7 +242,7 @@ def run(ck):
             ck.judge(win["hi"] == want_hi and win["hi_incl"], "C12.1", short(cand_fn) + ":upper", we,
                      "candidates include a query label at exactly +maxDistance from the diagonal",
                      found=f"q {'<=' if win['hi_incl'] else '<'} {T.show(win['hi'])}", required=f"q <= {T.show(want_hi)}")
-            ck.judge(win["src"] == V("queryPositions"), "C12.1", short(cand_fn) + ":source", we,
+            ck.judge(win["src"] == V(pQ), "C12.1", short(cand_fn) + ":source", we,
                      "candidates are drawn from the query label list", found=T.show(win["src"])[:80])
     ck.floor("C12 candidate emissions", n_y, 1)
     # ---- C12.3 complement by siteId
@@ -247,17 +270,18 @@ def run(ck):
             bv = [x for x in T.subterms(elt) if x[0] == "bv"][0]
             cond = ifs[0]
             okc = cond[0] == "notin" and cond[1] == T.mk_attr(bv, "siteId") and cond[2][0] == "comp" and \
-                cond[2][3][0][0] == V("alignedPairs") and cond[2][2] == T.mk_attr(T.mk_attr(cond[2][2][1][1], side), "siteId") \
+                cond[2][3][0][0] == V(uD) and cond[2][2] == T.mk_attr(T.mk_attr(cond[2][2][1][1], side), "siteId") \
                 if cond[0] == "notin" and cond[2][0] == "comp" and cond[2][2][0] == "attr" and cond[2][2][1][0] == "attr" else False
-            src_ok = it == V(side + "Positions")
+            src_ok = it == V(uR if side == "reference" else uQ)
             sides[side] = (okc, src_ok, c0)
             ck.judge(bool(okc) and src_ok, "C12.3", short(un_fn) + ":" + side, wu,
                      f"unpaired {side} labels = labels of the {side} list whose siteId is in no kept pair",
                      found=T.show(c0)[:200], required=f"[.. for x in {side}Positions if x.siteId not in [p.{side}.siteId for p in alignedPairs]]")
             if side == "query":
                 a = dict(elt[2])
-                ck.judge(a.get("referenceStart") == V("referenceStartPosition"), "C12.3", short(un_fn) + ":query-offset", wu,
-                         "unpaired query labels are placed with the same seed offset", found=T.show(a.get("referenceStart", C(None))))
+                vals = [v for k, v in a.items() if v == V(uS)]
+                ck.judge(bool(vals), "C12.3", short(un_fn) + ":query-offset", wu,
+                         "unpaired query labels are placed with the same seed offset", found=str({k: T.show(v) for k, v in a.items()}))
         ck.judge(set(sides) == {"reference", "query"}, "C12.3", short(un_fn) + ":both-sides", wu,
                  "both the reference and the query side have an unpaired list", found=str(sorted(sides)))
     numbering(ck, "C12.4")
